@@ -240,6 +240,7 @@ func (fr *Frame) inlineCall(st *State, fn *ssa.Function, bindings []*Val, args [
 		return res
 	}
 	*st = *out
+	x.vc.pcNow = st.pc
 	return vals
 }
 
@@ -524,6 +525,7 @@ func (fr *Frame) callWithContract(st *State, c *FuncContract, fn *ssa.Function, 
 	}
 	env.st = st
 	env.old = pre
+	x.vc.pcNow = st.pc
 	for _, e := range c.Ensures {
 		g, err := env.assuming().evalBool(e.Expr)
 		if err != nil {
@@ -710,6 +712,7 @@ func (fr *Frame) callbackLoop(st *State, cl *Closure, pname string, env *SpecEnv
 	if len(vals) > 0 {
 		errT = vals[len(vals)-1].L[0]
 	}
+	x.vc.pcNow = st.pc
 	cont := st.clone()
 	cont.pc = x.vc.def("pc", sBool, tAnd(st.pc, tEq(errT, "0")))
 	for _, c := range invs {
@@ -724,6 +727,7 @@ func (fr *Frame) callbackLoop(st *State, cl *Closure, pname string, env *SpecEnv
 		return
 	}
 	*st = *m
+	x.vc.pcNow = st.pc
 	ci.count = x.vc.def("cbcount", sInt, tIte(stopped, tAdd(n, "1"), n))
 	errTy := types.Universe.Lookup("error").Type()
 	env.vars[pname+"_err"] = &Val{Ty: errTy, L: []string{tIte(stopped, errT, "0")}}
@@ -968,6 +972,7 @@ func (fr *Frame) runDefers(st *State) {
 		if guard != st.pc {
 			sub.pc = x.vc.def("pc", sBool, tAnd(st.pc, guard))
 		}
+		x.vc.pcNow = sub.pc
 		if c.IsInvoke() {
 			fr.callMethodByIface(sub, c.Method, append([]*Val{d.fnv}, d.args...), d.call.Pos())
 		} else if b, ok := c.Value.(*ssa.Builtin); ok {
@@ -985,6 +990,7 @@ func (fr *Frame) runDefers(st *State) {
 			pc := st.pc
 			*st = *m
 			st.pc = pc
+			x.vc.pcNow = st.pc
 		}
 	}
 }
